@@ -208,7 +208,7 @@ async def session(sc):
             data = link.writes[idx[n] + 1][2]
             recs = [p for p in mini.raw_packets if p['payload'] is not None]
             # sequence number MiniSSH used for that packet: the one following the n-th NEWKEYS it received
-            nk = [i for i, p in enumerate(recs) if p['payload'][:1] == bytes([M.MSG_NEWKEYS])]
+            nk = [i for i, p in enumerate(recs) if (p.get('uncompressed') or p['payload'])[:1] == bytes([M.MSG_NEWKEYS])]
             if len(nk) <= n or nk[n] + 1 >= len(recs):
                 return
             rec = recs[nk[n] + 1]
